@@ -226,10 +226,19 @@ where
                 Ok(())
             }
             _ => {
-                // if VR is DS or IS and the value is binary,
+                // if VR is DS or IS and the value is numeric (or empty),
                 // write value as a string instead
+                // (dates, times and tags have their own encoding)
                 if let VR::DS | VR::IS = de.vr {
-                    return self.encode_element_as_text(value, de);
+                    if !matches!(
+                        value,
+                        PrimitiveValue::Date(_)
+                            | PrimitiveValue::DateTime(_)
+                            | PrimitiveValue::Time(_)
+                            | PrimitiveValue::Tags(_)
+                    ) {
+                        return self.encode_element_as_text(value, de);
+                    }
                 }
 
                 let byte_len = value.calculate_byte_len();
